@@ -6,6 +6,9 @@ package main
 //   case N seq      sequential history; ops: sub I | unsub I | set K V | inc K N | del K | shift K | get K | reload
 //   case N conc     forced schedule on SendMsg: subscriber 1 is attached with a *gated* stream
 //                   (SendMsg blocks until `drain`); ops: spawn T set K V | drain
+//   case N late     a subscription that arrives while the swamp is being summoned: ops: spawn T set K V (the first request
+//                   on a fresh swamp; parks at hook swamp.new, inside SummonSwamp's creation of the instance) | sub I | go T
+//                   replies: `T@loading`, `ok`, `T done st=<STATUS> sI=[ev…]`
 //   case N stress P op: stress W K N  (W writers × N increments over K keys, ungated stream);
 //                   P = p1 (write interval 1 s) | p0 (immediate write: SaveFunction releases the guard itself)
 //
@@ -37,6 +40,7 @@ import (
 	"github.com/hydraide/hydraide/app/verifhook"
 	hydrapb "github.com/hydraide/hydraide/sdk/go/hydraidego/v3/hydraidepbgo"
 	"google.golang.org/grpc/metadata"
+	"google.golang.org/protobuf/types/known/timestamppb"
 )
 
 func init() { Register("C19", Domain{Gen: c19Gen, Run: c19Run}) }
@@ -55,6 +59,13 @@ func c19Gen(rng *rand.Rand, tier string, w *bufio.Writer) {
 	fmt.Fprintf(w, "case %d seq\nsub 1\nset a x\nset a x\nset a y\nget a\ninc n 2\ninc n 3\nunsub 1\nset a z\nsub 1\ndel a\ndel n\nset a x\n", c)
 	c++
 	fmt.Fprintf(w, "case %d seq\nset a x\nreload\nsub 1\nset a x\nset a y\nsub 2\nset b x\nshift b\nunsub 1\nset a y\nset a q\n", c)
+	c++
+	// records that carry client-supplied CreatedAt / UpdatedAt (year 2001): the event time is still the time of the change
+	fmt.Fprintf(w, "case %d seq\nsub 1\nsetm a x\nsetm a y\nset a z\nset b x\ndel a\nsetm a q\nreload\nset a r\n", c)
+	c++
+	fmt.Fprintf(w, "case %d late\nspawn A set a x\nsub 1\ngo A\n", c)
+	c++
+	fmt.Fprintf(w, "case %d late\nsub 1\nspawn A set a x\nsub 2\ngo A\n", c)
 	c++
 	fmt.Fprintf(w, "case %d conc\nspawn A set a x\nspawn B set b x\ndrain\n", c)
 	c++
@@ -191,6 +202,10 @@ type c19State struct {
 	maxInside int32
 	ths       []*c19Thread
 	dead      bool
+	lateGate  chan struct{}
+	lateDone  chan string
+	lateT0    int64
+	lateHit   atomic.Bool
 }
 
 func (st *c19State) next(d time.Duration) (c19Ev, bool) {
@@ -322,6 +337,18 @@ func (st *c19State) doSet(k, v string) string {
 	return c19Status(resp.GetSwamps()[0].GetKeysAndStatuses()[0].GetStatus())
 }
 
+func (st *c19State) doSetMeta(k, v string) string {
+	old := timestamppb.New(time.Date(2001, 1, 1, 0, 0, 0, 0, time.UTC))
+	resp, err := st.rig.GW.Set(context.Background(), &hydrapb.SetRequest{Swamps: []*hydrapb.SwampRequest{{
+		IslandID: 1, SwampName: st.swamp, CreateIfNotExist: true, Overwrite: true,
+		KeyValues: []*hydrapb.KeyValuePair{{Key: k, StringVal: &v, CreatedAt: old, UpdatedAt: old}},
+	}}})
+	if err != nil || resp == nil || len(resp.GetSwamps()) != 1 || len(resp.GetSwamps()[0].GetKeysAndStatuses()) != 1 {
+		return "ERR"
+	}
+	return c19Status(resp.GetSwamps()[0].GetKeysAndStatuses()[0].GetStatus())
+}
+
 // one sequential request; returns the status token
 func (st *c19State) seqOp(f []string) string {
 	ctx, cancel := context.WithTimeout(context.Background(), c19StepTimeout)
@@ -330,6 +357,8 @@ func (st *c19State) seqOp(f []string) string {
 	switch f[0] {
 	case "set":
 		return st.doSet(f[1], f[2])
+	case "setm":
+		return st.doSetMeta(f[1], f[2])
 	case "inc":
 		n, _ := strconv.ParseInt(f[2], 10, 64)
 		resp, err := gw.IncrementInt64(ctx, &hydrapb.IncrementInt64Request{IslandID: 1, SwampName: st.swamp, Key: f[1], IncrementBy: n})
@@ -561,6 +590,11 @@ func c19Run(in *bufio.Scanner, w *bufio.Writer) {
 				a = args[0]
 			}
 			st.events <- c19Ev{name: nm, arg: a}
+		case "swamp.new":
+			if st.mode == "late" && st.threads.Current() != "" && st.lateHit.CompareAndSwap(false, true) {
+				st.events <- c19Ev{thread: st.threads.Current(), name: nm}
+				<-st.lateGate
+			}
 		case "events.send.pre", "guard.wait":
 			if st.mode == "conc" {
 				if th := st.threads.Current(); th != "" {
@@ -574,6 +608,17 @@ func c19Run(in *bufio.Scanner, w *bufio.Writer) {
 	endCase := func() {
 		if st.mode == "conc" && st.gated.Load() {
 			st.drain()
+		}
+		if st.mode == "late" && st.lateGate != nil {
+			select {
+			case st.lateGate <- struct{}{}:
+				select {
+				case <-st.lateDone:
+				case <-time.After(c19StepTimeout):
+				}
+			default:
+			}
+			st.lateGate = nil
 		}
 		for i := range st.subs {
 			st.unsubscribe(i)
@@ -627,7 +672,71 @@ func c19Run(in *bufio.Scanner, w *bufio.Writer) {
 			continue
 		}
 		switch {
-		case st.mode == "seq" && (f[0] == "sub" || f[0] == "unsub") && len(f) == 2:
+		case st.mode == "late" && f[0] == "spawn" && len(f) == 5 && f[2] == "set":
+			if st.lateGate != nil {
+				fmt.Fprintln(w, "bad-op")
+				break
+			}
+			st.lateGate, st.lateDone = make(chan struct{}), make(chan string, 1)
+			st.lateHit.Store(false)
+			st.lateT0 = time.Now().UnixNano()
+			tn, k, v := f[1], f[3], f[4]
+			go func() {
+				st.threads.Register(tn)
+				defer st.threads.Unregister()
+				st.lateDone <- st.doSet(k, v)
+			}()
+			reply := tn + " stuck"
+			deadline := time.After(c19StepTimeout)
+		lateWait:
+			for {
+				select {
+				case ev := <-st.events:
+					if ev.name == "swamp.new" && ev.thread == tn {
+						reply = tn + "@loading"
+						break lateWait
+					}
+				case r := <-st.lateDone:
+					reply = tn + " done st=" + r
+					st.lateGate = nil
+					break lateWait
+				case <-deadline:
+					break lateWait
+				}
+			}
+			fmt.Fprintln(w, reply)
+		case st.mode == "late" && f[0] == "go" && len(f) == 2:
+			if st.lateGate == nil {
+				fmt.Fprintln(w, "bad-op")
+				break
+			}
+			var ids []int
+			for i := range st.subs {
+				ids = append(ids, i)
+			}
+			sort.Ints(ids)
+			status := "stuck"
+			select {
+			case st.lateGate <- struct{}{}:
+				select {
+				case status = <-st.lateDone:
+				case <-time.After(c19StepTimeout):
+				}
+			case <-time.After(c19StepTimeout):
+			}
+			st.lateGate = nil
+			t1 := time.Now().UnixNano()
+			var b strings.Builder
+			b.WriteString(f[1] + " done st=" + status)
+			for _, i := range ids {
+				var evs []string
+				for _, m := range st.subs[i].take() {
+					evs = append(evs, c19Event(m, st.lateT0, t1))
+				}
+				fmt.Fprintf(&b, " s%d=[%s]", i, strings.Join(evs, ";"))
+			}
+			fmt.Fprintln(w, b.String())
+		case (st.mode == "seq" || st.mode == "late") && (f[0] == "sub" || f[0] == "unsub") && len(f) == 2:
 			i, err := strconv.Atoi(f[1])
 			if err != nil {
 				fmt.Fprintln(w, "bad-op")
@@ -638,7 +747,7 @@ func c19Run(in *bufio.Scanner, w *bufio.Writer) {
 			} else {
 				fmt.Fprintln(w, st.unsubscribe(i))
 			}
-		case st.mode == "seq" && ((len(f) == 3 && (f[0] == "set" || f[0] == "inc")) || (len(f) == 2 && (f[0] == "del" || f[0] == "shift" || f[0] == "get")) || (len(f) == 1 && f[0] == "reload")):
+		case st.mode == "seq" && ((len(f) == 3 && (f[0] == "set" || f[0] == "setm" || f[0] == "inc")) || (len(f) == 2 && (f[0] == "del" || f[0] == "shift" || f[0] == "get")) || (len(f) == 1 && f[0] == "reload")):
 			var ids []int
 			for i := range st.subs {
 				ids = append(ids, i)
